@@ -185,6 +185,7 @@ static int pick_frame(const mjModel* m0, mjg_rng* r, int* ot, const char** name)
   return 0;
 }
 
+static int nxtm;   // number of tendon motors added after the SO3 servo
 #define MAXGROUP 8
 static int grp_idx[MAXGROUP][16];   // group -> role -> sensor id (-1 none); roles: 0 pos 1 quat 2..4 axes 5 linvel 6 angvel
 static int ngroup;
@@ -231,8 +232,40 @@ static mjModel* build(uint64_t seed, unsigned feat, int nbody) {
     for (int i = 0; i < 3; i++) { st->size[i] = mjg_range(r, 0.1, 0.3); st->pos[i] = mjg_range(r, -0.05, 0.05); }
     if (mjg_chance(r, 0.5)) mjg_quat(r, st->quat);
   }
+  // index spaces that coincide on ordinary models (actuator id / force-output address / control address): a ball-joint body for a
+  // 3-output SO3 servo, a slide body and a fixed tendon over it for the single-output actuators that are added AFTER the servo
+  {
+    mjsBody* world = mjs_findBody(s, "world"); mjsBody* bb = mjs_addBody(world, NULL); mjs_setName(bb->element, "c28ballb"); bb->pos[0] = 2.5; bb->pos[2] = 1.0;
+    mjsJoint* jb = mjs_addJoint(bb, NULL); jb->type = mjJNT_BALL; mjs_setName(jb->element, "c28ball");
+    mjsGeom* gb = mjs_addGeom(bb, NULL); gb->type = mjGEOM_BOX; gb->size[0] = 0.05; gb->size[1] = 0.08; gb->size[2] = 0.11; gb->pos[0] = 0.1; gb->contype = 0; gb->conaffinity = 0; mjs_setName(gb->element, "c28gball");
+    mjsBody* sb = mjs_addBody(world, NULL); mjs_setName(sb->element, "c28slideb"); sb->pos[0] = -2.5; sb->pos[2] = 1.0;
+    mjsJoint* js = mjs_addJoint(sb, NULL); js->type = mjJNT_SLIDE; js->axis[0] = 1; js->axis[1] = 0; js->axis[2] = 0; js->damping[0] = 5; mjs_setName(js->element, "c28slide");
+    mjsGeom* gs = mjs_addGeom(sb, NULL); gs->type = mjGEOM_SPHERE; gs->size[0] = 0.07; gs->contype = 0; gs->conaffinity = 0; mjs_setName(gs->element, "c28gslide");
+    mjsTendon* tn = mjs_addTendon(s, NULL); mjs_setName(tn->element, "c28ten"); mjs_wrapJoint(tn, "c28slide", 2.0);
+  }
   mjModel* m0 = mj_compile(s, NULL);
   if (!m0) { fprintf(stderr, "c28: first compile failed: %s\n", mjs_getError(s)); mj_deleteSpec(s); return NULL; }
+  // the SO3 servo (3 outputs; 3 or 4 controls) followed by plain motors on the tendons and on the slide joint
+  {
+    mjg_rng R3 = { seed * 733 + 19 };
+    mjsActuator* a = mjs_addActuator(s, NULL); mjs_setName(a->element, "xso3"); a->trntype = mjTRN_JOINT; mjs_setString(a->target, "c28ball");
+    a->gaintype = mjGAIN_SO3; a->biastype = mjBIAS_SO3; a->gainprm[0] = mjg_range(&R3, 2, 12); a->biasprm[1] = -a->gainprm[0]; a->biasprm[2] = -mjg_range(&R3, 0, 1);
+    if (mjg_chance(&R3, 0.3)) a->ctrlspec = mjCHART_QUAT;
+    static const char* tnames[3]; char tb[2][16]; int nt = 0;
+    tnames[nt++] = "c28ten";
+    for (int t = 0; t < m0->ntendon && nt < 3; t++) { const char* n = mj_id2name(m0, mjOBJ_TENDON, t); if (n && strcmp(n, "c28ten")) { snprintf(tb[nt - 1], 16, "%s", n); tnames[nt] = tb[nt - 1]; nt++; } }
+    int k = 0;
+    for (int t = 0; t < nt; t++) for (int rep2 = 0; rep2 < (t == 0 ? 2 : 1); rep2++) {
+      mjsActuator* b = mjs_addActuator(s, NULL); char n[16]; snprintf(n, sizeof(n), "xtm%d", k++); mjs_setName(b->element, n);
+      b->trntype = mjTRN_TENDON; mjs_setString(b->target, tnames[t]); b->gaintype = mjGAIN_FIXED; b->gainprm[0] = mjg_range(&R3, 0.3, 4); b->biastype = mjBIAS_NONE;
+      if (mjg_chance(&R3, 0.4)) { b->ctrllimited = mjLIMITED_TRUE; b->ctrlrange[0] = -0.8; b->ctrlrange[1] = 0.6; }
+      if (t == 0 && rep2 == 0) {   // a joint motor between the two motors of the dedicated tendon
+        mjsActuator* c = mjs_addActuator(s, NULL); mjs_setName(c->element, "xjm"); c->trntype = mjTRN_JOINT; mjs_setString(c->target, "c28slide");
+        c->gaintype = mjGAIN_FIXED; c->gainprm[0] = mjg_range(&R3, 1, 9); c->biastype = mjBIAS_NONE; c->gear[0] = mjg_range(&R3, 0.5, 2);
+      }
+    }
+    nxtm = k;
+  }
 
   nreq = 0; ngroup = 0;
   for (int g = 0; g < MAXGROUP; g++) for (int k = 0; k < 16; k++) grp_idx[g][k] = -1;
@@ -308,12 +341,28 @@ static mjModel* build(uint64_t seed, unsigned feat, int nbody) {
       req(mjSENS_TENDONLIMITFRC, mjOBJ_TENDON, tn, 0, NULL, cut(r, 5.0), -1, 0);
     }
   }
-  for (int a = 0; a < m0->nu; a++) {
+  for (int a = 0; a < m0->nactuator; a++) {
     const char* an = nm(m0, mjOBJ_ACTUATOR, a);
     req(mjSENS_ACTUATORPOS, mjOBJ_ACTUATOR, an, 0, NULL, cut(r, 0.5), -1, 0);
     req(mjSENS_ACTUATORVEL, mjOBJ_ACTUATOR, an, 0, NULL, cut(r, 1.0), -1, 0);
     req(mjSENS_ACTUATORFRC, mjOBJ_ACTUATOR, an, 0, NULL, cut(r, 1.0), -1, 0);
   }
+  // sensors on the actuators that follow the 3-output servo (output address != actuator id, control address != actuator id)
+  req(mjSENS_ACTUATORFRC, mjOBJ_ACTUATOR, "xso3", 0, NULL, 0, -1, 0);
+  req(mjSENS_ACTUATORPOS, mjOBJ_ACTUATOR, "xso3", 0, NULL, 0, -1, 0);
+  req(mjSENS_ACTUATORVEL, mjOBJ_ACTUATOR, "xso3", 0, NULL, 0, -1, 0);
+  for (int k = 0; k < nxtm; k++) {
+    char n[16]; snprintf(n, sizeof(n), "xtm%d", k);
+    req(mjSENS_ACTUATORFRC, mjOBJ_ACTUATOR, n, 0, NULL, cut(r, 1.0), -1, 0);
+    req(mjSENS_ACTUATORPOS, mjOBJ_ACTUATOR, n, 0, NULL, 0, -1, 0);
+    req(mjSENS_ACTUATORVEL, mjOBJ_ACTUATOR, n, 0, NULL, 0, -1, 0);
+  }
+  req(mjSENS_ACTUATORFRC, mjOBJ_ACTUATOR, "xjm", 0, NULL, 0, -1, 0);
+  req(mjSENS_ACTUATORPOS, mjOBJ_ACTUATOR, "xjm", 0, NULL, 0, -1, 0);
+  req(mjSENS_ACTUATORVEL, mjOBJ_ACTUATOR, "xjm", 0, NULL, 0, -1, 0);
+  req(mjSENS_JOINTACTFRC, mjOBJ_JOINT, "c28slide", 0, NULL, 0, -1, 0);
+  req(mjSENS_BALLQUAT, mjOBJ_JOINT, "c28ball", 0, NULL, 0, -1, 0);
+  req(mjSENS_BALLANGVEL, mjOBJ_JOINT, "c28ball", 0, NULL, 0, -1, 0);
   // subtrees (world included)
   for (int k = 0; k < 3; k++) {
     const char* bn = nm(m0, mjOBJ_BODY, mjg_int(r, m0->nbody));
@@ -359,6 +408,19 @@ static mjModel* build(uint64_t seed, unsigned feat, int nbody) {
   return m;
 }
 
+// force of a plain motor computed from its inputs (fixed gain, no bias, no dynamics, no force limit, single output):
+// gain * ctrl, the control clamped to ctrlrange when limited; returns 0 when actuator a is not of that kind
+static int plain_motor_force(const mjModel* m, const mjData* d, int a, mjtNum* f) {
+  if (m->actuator_gaintype[a] != mjGAIN_FIXED || m->actuator_biastype[a] != mjBIAS_NONE || m->actuator_dyntype[a] != mjDYN_NONE) return 0;
+  if (m->actuator_forcelimited[a] || m->actuator_outnum[a] != 1 || m->actuator_ctrlnum[a] != 1 || m->actuator_plugin[a] >= 0) return 0;
+  if (m->actuator_trntype[a] == mjTRN_TENDON && m->tendon_actfrclimited[m->actuator_trnid[2 * a]]) return 0;
+  if (m->actuator_trntype[a] == mjTRN_JOINT && m->jnt_actfrclimited[m->actuator_trnid[2 * a]]) return 0;
+  if (mj_actuatorDisabled(m, a) || (m->opt.disableflags & mjDSBL_ACTUATION)) { *f = 0; return 1; }
+  int ua = m->actuator_ctrladr[a];   // ctrllimited / ctrlrange are per control (nu), not per actuator
+  mjtNum c = d->ctrl[ua];
+  if (m->actuator_ctrllimited[ua] && !(m->opt.disableflags & mjDSBL_CLAMPCTRL)) { mjtNum lo = m->actuator_ctrlrange[2 * ua], hi = m->actuator_ctrlrange[2 * ua + 1]; c = c < lo ? lo : (c > hi ? hi : c); }
+  *f = m->actuator_gainprm[mjNGAIN * a] * c; return 1;
+}
 static int touch_inside, touch_reproj, touch_wrongdir;   // per repetition: contacts counted by clause (inside / outward ray) and contacts only a backward ray would pick up
 // ---------------------------------------------------------------- the documented quantity of sensor i
 // returns the number of expected values written to e (0: no oracle), sets *scl (magnitude of intermediate terms)
@@ -388,24 +450,33 @@ static int expected(const mjModel* m, mjData* d, int i, mjtNum* e, mjtNum* scl, 
       int n = m->actuator_outnum[id], oa = m->actuator_outadr[id];
       if (n == 1 && m->actuator_trntype[id] == mjTRN_JOINT && (m->jnt_type[m->actuator_trnid[2 * id]] == mjJNT_HINGE || m->jnt_type[m->actuator_trnid[2 * id]] == mjJNT_SLIDE)) {
         int j = m->actuator_trnid[2 * id];
-        e[0] = m->actuator_gear[6 * id] * (type == mjSENS_ACTUATORPOS ? d->qpos[m->jnt_qposadr[j]] : d->qvel[m->jnt_dofadr[j]]);
+        e[0] = m->actuator_gear[6 * oa] * (type == mjSENS_ACTUATORPOS ? d->qpos[m->jnt_qposadr[j]] : d->qvel[m->jnt_dofadr[j]]);
       } else if (n == 1 && m->actuator_trntype[id] == mjTRN_TENDON) {
         int tn = m->actuator_trnid[2 * id];
-        e[0] = m->actuator_gear[6 * id] * (type == mjSENS_ACTUATORPOS ? d->ten_length[tn] : d->ten_velocity[tn]);
+        e[0] = m->actuator_gear[6 * oa] * (type == mjSENS_ACTUATORPOS ? d->ten_length[tn] : d->ten_velocity[tn]);
       } else { for (int k = 0; k < n; k++) e[k] = (type == mjSENS_ACTUATORPOS ? d->actuator_length : d->actuator_velocity)[oa + k]; *kind = "copy"; }
       return n;
     }
-    case mjSENS_ACTUATORFRC: { int n = m->actuator_outnum[id]; for (int k = 0; k < n; k++) e[k] = d->actuator_force[m->actuator_outadr[id] + k]; *kind = "copy"; return n; }
+    case mjSENS_ACTUATORFRC: {
+      int n = m->actuator_outnum[id]; mjtNum f;
+      if (plain_motor_force(m, d, id, &f)) { e[0] = f; return 1; }
+      for (int k = 0; k < n; k++) e[k] = d->actuator_force[m->actuator_outadr[id] + k]; *kind = "copy"; return n;
+    }
     case mjSENS_JOINTACTFRC: {
       // generalized force of all actuators on this dof: moment^T force (+ gravity compensation routed through actuators)
       int dof = m->jnt_dofadr[id]; mjtNum s = 0, sc = 0;
-      for (int a = 0; a < m->nu; a++) for (int o = m->actuator_outadr[a]; o < m->actuator_outadr[a] + m->actuator_outnum[a]; o++)
+      for (int a = 0; a < m->nactuator; a++) for (int o = m->actuator_outadr[a]; o < m->actuator_outadr[a] + m->actuator_outnum[a]; o++)
         for (int k = 0; k < d->moment_rownnz[o]; k++) if (d->moment_colind[d->moment_rowadr[o] + k] == dof) { s += d->actuator_moment[d->moment_rowadr[o] + k] * d->actuator_force[o]; sc += fabs(d->actuator_moment[d->moment_rowadr[o] + k] * d->actuator_force[o]); }
       if (m->jnt_actgravcomp[id]) s += d->qfrc_gravcomp[dof];
       e[0] = s; *scl = sc; return 1;
     }
     case mjSENS_TENDONACTFRC: {
-      mjtNum s = 0; for (int a = 0; a < m->nu; a++) if (m->actuator_trntype[a] == mjTRN_TENDON && m->actuator_trnid[2 * a] == id) s += d->actuator_force[m->actuator_outadr[a]];
+      // total force of the actuators acting on this tendon; plain motors from their inputs (gain * ctrl), others from actuator_force at their output address
+      mjtNum s = 0; int allplain = 1;
+      for (int a = 0; a < m->nactuator; a++) if (m->actuator_trntype[a] == mjTRN_TENDON && m->actuator_trnid[2 * a] == id) {
+        mjtNum f; if (plain_motor_force(m, d, a, &f)) s += f; else { s += d->actuator_force[m->actuator_outadr[a]]; allplain = 0; }
+      }
+      if (!allplain) *kind = "partly-copy";
       e[0] = s; return 1;
     }
     case mjSENS_JOINTLIMITPOS: case mjSENS_JOINTLIMITVEL: case mjSENS_TENDONLIMITPOS: case mjSENS_TENDONLIMITVEL: {
@@ -708,8 +779,11 @@ static void run_model(uint64_t seed, unsigned feat, int nbody, int nrep, int sce
       int ne = expected(m, d, i, e, &scl, &kind);
       int dofless = 0;
       { const mjtNum *fp, *fR; int fb; if (frame_of(m, d, m->sensor_objtype[i], m->sensor_objid[i], &fp, &fR, &fb)) dofless = m->body_dofnum[m->body_weldid[fb]] == 0; }
-      printf("S %d %d %d %d %d %d %d %d %d %d %a %s %a %d", i, m->sensor_type[i], m->sensor_objtype[i], m->sensor_objid[i], m->sensor_reftype[i], m->sensor_refid[i],
-             m->sensor_datatype[i], m->sensor_needstage[i], m->sensor_dim[i], m->sensor_adr[i], (double)m->sensor_cutoff[i], ne ? kind : "none", (double)scl, dofless);
+      int docdim = -1;   // documented size where it depends on the object: actuator sensors report one value per force output (3 for an SO3 servo)
+      if (m->sensor_type[i] == mjSENS_ACTUATORPOS || m->sensor_type[i] == mjSENS_ACTUATORVEL || m->sensor_type[i] == mjSENS_ACTUATORFRC)
+        docdim = m->actuator_gaintype[m->sensor_objid[i]] == mjGAIN_SO3 ? 3 : 1;
+      printf("S %d %d %d %d %d %d %d %d %d %d %a %s %a %d %d", i, m->sensor_type[i], m->sensor_objtype[i], m->sensor_objid[i], m->sensor_reftype[i], m->sensor_refid[i],
+             m->sensor_datatype[i], m->sensor_needstage[i], m->sensor_dim[i], m->sensor_adr[i], (double)m->sensor_cutoff[i], ne ? kind : "none", (double)scl, dofless, docdim);
       printf(" |"); pd(d->sensordata + m->sensor_adr[i], m->sensor_dim[i]);
       printf(" |"); pd(e, ne); printf("\n");
     }
